@@ -265,6 +265,18 @@ func c16Scenario(tree int, dotu bool, maxK int, ancestors bool) Scenario {
 										}
 									}
 									qidPaths[sd.Stat.Qid.Path] = full
+									// the fid can be cloned whatever it designates (a dangling symbolic link too)
+									if !inplace {
+										res.Evals++
+										if rc2 := cl.Rpc(twalk(6, dst, 8)); rc2 == nil || rc2.Type != wire.Rwalk || len(rc2.Wqid) != 0 {
+											fail("clone-of-walked-fid-refused", fmt.Sprintf("a Twalk with no names from the fid that designates %q answered %v", full, rc2))
+										} else {
+											if sc := statOf(8); sc == nil || sc.Type != wire.Rstat || sc.Stat.Qid.Path != sd.Stat.Qid.Path {
+												fail("clone-designates-something-else", fmt.Sprintf("the clone of the fid that designates %q answers %v", full, sc))
+											}
+											cl.Rpc(&wire.Msg{Type: wire.Tclunk, Tag: 6, Fid: 8})
+										}
+									}
 									// the fid keeps designating the same object once it is open (the open
 									// follows a symbolic link, the fid does not)
 									if a == 0 && !inplace && n.lstat.Mode()&(os.ModeDevice|os.ModeSocket|os.ModeNamedPipe|os.ModeCharDevice) == 0 {
